@@ -616,6 +616,96 @@ func c12BBoxQuadrants(r *run.Run) {
 		})
 }
 
+// c12BBoxCurves: glyph boxes of CFF glyphs whose curves bulge beyond their end points: a box "consistent
+// with the outline" contains the outline (the true extrema of every curve, computed here from the roots of
+// the derivative) and lies inside the box of all control points.
+func c12BBoxCurves(r *run.Run) {
+	ctrl := [][2]float64{{0, 100}, {100, 100}, {-50, 40}, {150, -60}, {30, 0}, {70, 0}}
+	r.Explore(explore.Config{Name: "C12.bbox-curves"},
+		"simple and CID-keyed CFF fonts with a glyph made of one curve from (0,0) to (100,0) with both control points from {(0,100), (100,100), (-50,40), (150,-60), (30,0), (70,0)} (bulging up, down, left and right of the chord, or flat), optionally closed by a line, at 3 offsets: GlyphBBox, FontBBox and the head box contain the curve's true extrema and lie inside the box of the control points; FontBBoxPDF agrees with FontBBox",
+		func(c *explore.Ctx) {
+			kind := 1 + c.Choose(2, "outline kind")
+			c1 := ctrl[c.Choose(len(ctrl), "first control point")]
+			c2 := ctrl[c.Choose(len(ctrl), "second control point")]
+			off := []float64{0, 500, -700}[c.Choose(3, "offset")]
+			f, spec := FontFromChoices(gen.FontOpts{NoMeta: true, Compact: true, NoLayout: true}, kind, 1)
+			ol := *f.Outlines.(*cff.Outlines)
+			ol.Glyphs = append([]*cff.Glyph{}, ol.Glyphs...)
+			n := len(ol.Glyphs)
+			px := [4]float64{off, off + c1[0], off + c2[0], off + 100}
+			py := [4]float64{off, off + c1[1], off + c2[1], off}
+			for i := range ol.Glyphs {
+				g := cff.NewGlyph(ol.Glyphs[i].Name, ol.Glyphs[i].Width)
+				g.MoveTo(px[0], py[0])
+				g.CurveTo(px[1], py[1], px[2], py[2], px[3], py[3])
+				ol.Glyphs[i] = g
+			}
+			f.Outlines = &ol
+			_ = spec
+			extrema := func(p [4]float64) (lo, hi float64) {
+				lo, hi = math.Min(p[0], p[3]), math.Max(p[0], p[3])
+				a := -p[0] + 3*p[1] - 3*p[2] + p[3]
+				b := 2 * (p[0] - 2*p[1] + p[2])
+				cc := p[1] - p[0]
+				var ts []float64
+				if math.Abs(a) < 1e-12 {
+					if math.Abs(b) > 1e-12 {
+						ts = append(ts, -cc/b)
+					}
+				} else if d := b*b - 4*a*cc; d >= 0 {
+					ts = append(ts, (-b+math.Sqrt(d))/(2*a), (-b-math.Sqrt(d))/(2*a))
+				}
+				for _, t := range ts {
+					if t > 0 && t < 1 {
+						v := (1-t)*(1-t)*(1-t)*p[0] + 3*(1-t)*(1-t)*t*p[1] + 3*(1-t)*t*t*p[2] + t*t*t*p[3]
+						lo, hi = math.Min(lo, v), math.Max(hi, v)
+					}
+				}
+				return
+			}
+			xlo, xhi := extrema(px)
+			ylo, yhi := extrema(py)
+			hull := func(p [4]float64) (float64, float64) {
+				return math.Min(math.Min(p[0], p[1]), math.Min(p[2], p[3])), math.Max(math.Max(p[0], p[1]), math.Max(p[2], p[3]))
+			}
+			hxlo, hxhi := hull(px)
+			hylo, hyhi := hull(py)
+			desc := fmt.Sprintf("%s, curve (%v,%v) (%v,%v) (%v,%v) (%v,%v)", gen.KindNames[kind], px[0], py[0], px[1], py[1], px[2], py[2], px[3], py[3])
+			c.Sample(func() any { return desc })
+			c.Nontrivial()
+			c.Outcome(desc)
+			const eps = 1e-6
+			inside := func(what string, b funit.Rect16) {
+				if float64(b.LLx) > xlo+eps || float64(b.LLy) > ylo+eps || float64(b.URx) < xhi-eps || float64(b.URy) < yhi-eps {
+					c.Fail("C12.query", what+" does not contain the outline", "%s = %v, the curve extends over [%.3f, %.3f] x [%.3f, %.3f] (%s)", what, b, xlo, xhi, ylo, yhi, desc)
+				}
+				if float64(b.LLx) < math.Floor(hxlo)-eps || float64(b.LLy) < math.Floor(hylo)-eps || float64(b.URx) > math.Ceil(hxhi)+eps || float64(b.URy) > math.Ceil(hyhi)+eps {
+					c.Fail("C12.query", what+" larger than the control points", "%s = %v, the control points span [%v, %v] x [%v, %v] (%s)", what, b, hxlo, hxhi, hylo, hyhi, desc)
+				}
+			}
+			for i := 0; i < n; i++ {
+				inside(fmt.Sprintf("GlyphBBox(%d)", i), f.GlyphBBox(glyph.ID(i)))
+			}
+			fb := f.FontBBox()
+			inside("FontBBox", fb)
+			q := f.FontMatrix[0] * 1000
+			pdf := f.FontBBoxPDF()
+			if pdf.LLx > xlo*q+eps || pdf.LLy > ylo*q+eps || pdf.URx < xhi*q-eps || pdf.URy < yhi*q-eps {
+				c.Fail("C12.query", "FontBBoxPDF does not contain the outline", "FontBBoxPDF = %v, the curve extends over [%.3f, %.3f] x [%.3f, %.3f] design units, scale %v (%s)", pdf, xlo, xhi, ylo, yhi, q, desc)
+			}
+			file, err := writeFont(f)
+			if err != nil {
+				c.Fail("C12.write", gen.KindNames[kind], "Write: %v (%s)", err, desc)
+				return
+			}
+			cont, _ := refsfnt.Walk(file)
+			hd, _ := cont.Table(file, "head")
+			if len(hd) >= 44 {
+				inside("head box", funit.Rect16{LLx: funit.Int16(binary.BigEndian.Uint16(hd[36:])), LLy: funit.Int16(binary.BigEndian.Uint16(hd[38:])), URx: funit.Int16(binary.BigEndian.Uint16(hd[40:])), URy: funit.Int16(binary.BigEndian.Uint16(hd[42:]))})
+			}
+		})
+}
+
 func isCID(f *sfnt.Font) bool {
 	o, ok := f.Outlines.(interface{ IsCIDKeyed() bool })
 	return ok && o.IsCIDKeyed()
@@ -723,6 +813,7 @@ func init() {
 		c12HmtxScaled(r)
 		c12Derived(r)
 		c12BBoxQuadrants(r)
+		c12BBoxCurves(r)
 		c12FontTimes(r)
 	})
 }
